@@ -466,6 +466,7 @@ impl Entry for TreeEntry {
 #[derive(Debug)]
 pub struct WalkTree {
     is_dir: bool,
+    is_empty: bool,
     pivot: usize,
     input: walkdir::IntoIter,
 }
@@ -495,8 +496,18 @@ impl WalkTree {
             },
             DepthBehavior::Unbounded => builder,
         };
+        // Depth behavior is relative to the target path rather than the root of the traversal,
+        // which may include an invariant prefix (the pivot). A maximum depth that does not reach
+        // the root of the traversal admits no files at all (consider `a/b/**` and a maximum depth
+        // of one). This cannot be expressed via `WalkDir`, which always yields its root.
+        let is_empty = match depth {
+            DepthBehavior::Max(max) => max.0 < pivot,
+            DepthBehavior::MinMax(minmax) => minmax.max().get() < pivot,
+            _ => false,
+        };
         WalkTree {
             is_dir: false,
+            is_empty,
             pivot,
             input: builder.into_iter(),
         }
@@ -526,7 +537,7 @@ impl Iterator for WalkTree {
     type Item = Result<TreeEntry, WalkError>;
 
     fn next(&mut self) -> Option<Self::Item> {
-        let (is_dir, next) = match self.input.next() {
+        let (is_dir, next) = match (!self.is_empty).then(|| self.input.next()).flatten() {
             Some(result) => match result {
                 Ok(entry) => (
                     entry.file_type().is_dir(),
